@@ -92,7 +92,9 @@ class Resolver:
         self.log = []
         self.current_item = None               # corpus item whose decl() is executing (bare dummy names refer to it)
         self.depth = 0                         # nesting of impl bodies being executed (0 = called by the harness or by the item itself)
-        self.direct = []                       # [(type text, method)] calls made by the outermost body (depth 1)
+        self.direct = []                       # [(type text, method)] calls made by the outermost body, directly or through built-in
+                                               # container impls (not from inside another corpus item's body)
+        self.stack = []                        # kinds of the impl bodies being executed: 'corpus' | 'builtin' | 'dummy'
 
     def install(self, m):
         m.stubs.append((self.RX, self.method))
@@ -139,7 +141,7 @@ class Resolver:
         q = self.RX.match(callee)
         ty, meth = strip_lifetimes(q.group(1)), q.group(2)
         ty = re.sub(r'\b(?:std::num::)?NonZero<([ui])(\d+|size)>', lambda a: 'NonZero' + a.group(1).upper() + a.group(2), ty)
-        if self.depth == 1:
+        if self.depth >= 1 and 'corpus' not in self.stack[1:] and 'dummy' not in self.stack[1:]:
             self.direct.append((ty, meth))
         if ty in self.abstract:
             return self.hole(ty, meth, m)
@@ -153,7 +155,7 @@ class Resolver:
             fn = item['dummies'].get(d.group(2), {}).get(meth)
             if fn is None:
                 raise Unsupported(f'dummy impl method not found: {callee}')
-            return self.run(m, fn, {}, args)
+            return self.run(m, fn, {}, args, kind='dummy')
         # corpus impls
         mh = re.match(r'^(\w+)(?:<(.*)>)?$', ty)
         if mh and mh.group(1) in G['corpus']:
@@ -170,7 +172,7 @@ class Resolver:
             fn = item['methods'].get(meth)
             if fn is None:
                 if f'TS::{meth}' in m.fns:
-                    return self.run(m, f'TS::{meth}', {'Self': ty}, args)
+                    return self.run(m, f'TS::{meth}', {'Self': ty}, args, kind='corpus')
                 raise Unsupported(f'no method {meth} for corpus type {ty}')
             rewrite = None
             if meth == 'decl' and item['free']:
@@ -185,7 +187,7 @@ class Resolver:
                     text = rx_q.sub(lambda a: '\x02' + a.group(1) + '\x03', text)
                     text = rx_b.sub(lambda a: '\x02' + a.group(1) + '\x03', text)
                     return re.sub('\x02(\\w+)\x03', lambda a: qual(a.group(1)), text)
-            return self.run(m, fn, sub if rewrite is None else {}, args, rewrite)
+            return self.run(m, fn, sub if rewrite is None else {}, args, rewrite, kind='corpus')
         # built-in impls
         for self_ty, gens, meths, kind, shadow in G['builtin']:
             sub = c12.type_unify(self_ty, ty, set(gens))
@@ -196,15 +198,17 @@ class Resolver:
                 return self.run(m, f'TS::{meth}', {'Self': ty}, args)
         raise Unsupported(f'no impl found for {callee}')
 
-    def run(self, m, fn_key, sub, args, rewrite=None):
+    def run(self, m, fn_key, sub, args, rewrite=None, kind='builtin'):
         saved = getattr(m, 'cur_subst', {})
         saved_fr = m.frame_rewrite
         m.cur_subst = dict(sub)
         m.frame_rewrite = rewrite
         self.depth += 1
+        self.stack.append(kind)
         try:
             return m.exec_fn(m.fns[fn_key], args)
         finally:
+            self.stack.pop()
             self.depth -= 1
             m.cur_subst = saved
             m.frame_rewrite = saved_fr
